@@ -283,6 +283,18 @@ func Run(r *fw.Run) {
 		}
 		lists = append(lists, ps, append(append([]string{"go.mod"}, ps...), "vendor/p/x.go", "sub/go.mod", "sub/x.go"))
 	}
+	// siblings whose names are what an implementation might use for its own temporary or backup files, as
+	// files and as directories, in every order
+	{
+		mini := []string{"a", "a.tmp", "a.tmp/x", "a~", "a.bak", "a.new", "a.part", ".a.tmp", "a.tmp.tmp", "a.lock", "a.orig", "d/b.go", "d/b.go.tmp", "d/b.go.tmp/c", "d.tmp/e", "d.tmp"}
+		for i := range mini {
+			for j := range mini {
+				if i != j {
+					lists = append(lists, []string{mini[i], mini[j]})
+				}
+			}
+		}
+	}
 	for i, a := range pool2 {
 		lists = append(lists, []string{a})
 		for j := i; j < len(pool2); j++ {
